@@ -595,3 +595,59 @@ Section Order.
     apply run_inv; [apply take_all_mono | apply take_all_inv | apply Inv_nil].
   Qed.
 End Order.
+
+(* ================= 4. several evaluations over the same variables ================= *)
+Section Seq.
+  Variable W : world.
+  Variable D : domains.
+
+  Lemma run_from_ext q m s : Ext s (run_from W D q m s).
+  Proof. destruct m; simpl; [apply Ext_refl | apply run_mono, take_mono]. Qed.
+  Lemma run_from_inv q m s : Inv s -> Inv (run_from W D q m s).
+  Proof. intros H. destruct m; simpl; auto. apply run_inv; auto; [apply take_mono | apply take_inv]. Qed.
+
+  Lemma fold_run_inv steps : forall s, Inv s -> Inv (fold_left (fun s qm => run_from W D (fst qm) (snd qm) s) steps s).
+  Proof. induction steps as [|[q m] steps IH]; intros s H; simpl; auto. apply IH, run_from_inv; auto. Qed.
+  Lemma fold_run_ext steps : forall s, Ext s (fold_left (fun s qm => run_from W D (fst qm) (snd qm) s) steps s).
+  Proof.
+    induction steps as [|[q m] steps IH]; intros s; simpl; [apply Ext_refl|].
+    eapply Ext_trans; [apply run_from_ext | apply IH].
+  Qed.
+
+  (* a later evaluation continues the index prefix of every domain: nothing is pulled twice, nothing is skipped *)
+  Theorem trace_seq_pulls_in_order steps x : pulls_in_order x (trace_seq W D steps).
+  Proof. unfold trace_seq, store_seq. apply Inv_in_order, fold_run_inv, Inv_nil. Qed.
+
+  Theorem trace_seq_prefix steps more : Prefix (trace_seq W D steps) (trace_seq W D (steps ++ more)).
+  Proof. unfold trace_seq, store_seq. rewrite fold_left_app. apply Ext_rev_Prefix, fold_run_ext. Qed.
+
+  Theorem trace_seq_single q n : trace_seq W D [(q, n)] = trace_k W D q n.
+  Proof. destruct n; reflexivity. Qed.
+
+  (* the rows of a later evaluation are again the first m rows of that query: what an earlier, abandoned evaluation left
+     in the domain caches does not change them *)
+  Lemma run_from_rows q m s : qfree_o (q_cond q) = true ->
+    rows_of (run_from W D q m s) = rev (firstn m (run W D q)) ++ rows_of s.
+  Proof.
+    intros Hq. destruct m as [|m]; [reflexivity|]. unfold run_from.
+    set (r0 := rows_of s).
+    pose (R := fun (s1 : store) (t : list (list val)) => rows_of s1 = t ++ r0).
+    assert (Rev : forall e s1 t, is_yield e = false -> R s1 t -> R (e :: s1) t).
+    { unfold R. intros e s1 t He H. rewrite rows_of_nonyield; auto. }
+    assert (Hk : ksim (list (list val)) R (take (nyields s + S m)) (take' (S m))).
+    { intros row s1 t H. unfold R in H. unfold take, take', R2, R. simpl fst. simpl snd. split.
+      - rewrite !nyields_rows. simpl rows_of. rewrite H. fold r0. simpl length. rewrite app_length.
+        destruct (Nat.leb_spec (length r0 + S m) (S (length t + length r0)));
+          destruct (Nat.leb_spec (S m) (S (length t))); auto; lia.
+      - simpl. now rewrite H. }
+    destruct (run_sim W D _ R Rev q _ _ Hq Hk s [] eq_refl) as [_ H].
+    unfold R in H. rewrite H, each_take' by (simpl; lia). simpl length. now rewrite Nat.sub_0_r, app_nil_r.
+  Qed.
+
+  Theorem trace_seq_rows2 q1 n q2 m : qfree_o (q_cond q1) = true -> qfree_o (q_cond q2) = true ->
+    rows_of (trace_seq W D [(q1, n); (q2, m)]) = firstn n (run W D q1) ++ firstn m (run W D q2).
+  Proof.
+    intros H1 H2. unfold trace_seq, store_seq. simpl. rewrite rows_of_rev, !run_from_rows by auto. simpl.
+    rewrite app_nil_r, rev_app_distr, !rev_involutive. reflexivity.
+  Qed.
+End Seq.
